@@ -83,7 +83,7 @@ def run_probe(prop, pairs, max_devices=24):
             known = mf is not None and p_gen.facts_equal(a["facts"], mf)[0]
             if known and "valid index tuple panics" in why and prop == "C13":
                 # recorded only where the emitted arithmetic, evaluated term by term in the internal type as the
-                # facts describe it, is predicted to overflow (F6c) or the range analysis missed the instance (F6a/F6b)
+                # facts describe it, is predicted to overflow (F6c) or the range analysis does not reach the instance (F6b)
                 st = oracles.check(prop, c, a, mf)
                 if st and st.get("finding"):
                     fid = st["finding"]
@@ -91,9 +91,9 @@ def run_probe(prop, pairs, max_devices=24):
                 continue   # overflow of the internal type is C13's concern
             if known and "reached the interface at" in why and prop in ("C13", "C04"):
                 # the address does not fit the address type and the final cast wraps: the static oracle's
-                # classification of the same definition (F6a / F6b: the range analysis missed the instance) applies
+                # classification of the same definition (F6b: the range analysis does not follow block refs) applies
                 st = oracles.check(prop, c, a, mf)
-                if st and st.get("finding") in ("F6a-minmax-ignores-enclosing-block-repeat", "F6b-minmax-ignores-block-ref-children"):
+                if st and st.get("finding") == "F6b-minmax-ignores-block-ref-children":
                     fid = st["finding"]
             viols.append({"case": p_gen.slim(c), "why": f"compiled driver: {why} at {json.dumps(where)[:200]}", "finding": fid})
             break
